@@ -32,6 +32,8 @@ F0, F1 = Fraction(0), Fraction(1)
 def make_instance(rng, herm=True, max_order=3):
     nexp_blocks = rng.choice([1, 1, 2])
     exp_sizes = [rng.choice([1, 2]) for _ in range(nexp_blocks)]
+    if nexp_blocks == 1 and rng.random() < 0.6:
+        exp_sizes = [rng.choice([2, 3, 3])]      # room for several levels inside the explicit block
     dB = rng.choice([2, 3, 4])
     d = sum(exp_sizes) + dB
     if d < 4:
@@ -59,6 +61,12 @@ def make_instance(rng, herm=True, max_order=3):
     E = []
     for b, sz in enumerate(exp_sizes):
         E += [exp_levels[b]] * sz
+    if nexp_blocks == 1 and exp_sizes[0] >= 2 and rng.random() < 0.75:
+        # several levels inside ONE explicit block, supplied in arbitrary (not ascending) order and with
+        # degenerate partners that are not neighbours: (2s, 0), (2s, 0, 2s), (0, 2s, 0), ...
+        # (the gap 2s inside the block is dyadic too, so the block may also be fully diagonalised)
+        pats = {2: [(1, 0), (0, 1), (1, 0)], 3: [(1, 0, 1), (0, 1, 0), (1, 1, 0), (1, 0, 0), (0, 1, 1)]}[exp_sizes[0]]
+        E = [exp_levels[q] for q in rng.choice(pats)]
     E += [rng.choice(imp_levels) for _ in range(dB)]
     inst["E"] = E
     if rng.random() < 0.4:
